@@ -17,10 +17,13 @@ import io
 import keyword
 import random
 import tokenize
+import warnings
 
 from .proj import Tables, try_parse
 
 from fst import FST  # implementation under test
+
+warnings.filterwarnings('ignore', category=SyntaxWarning)  # replacement texts contain deliberately odd literals
 
 MODES = {'exec': 'Module', 'eval': 'Expression', 'single': 'Interactive'}
 
@@ -96,7 +99,8 @@ def _first_body_pos(lines, n):
     """start of the first statement-like child (for block header end), or None"""
     best = None
     for fld in ('body', 'handlers', 'cases', 'orelse', 'finalbody'):
-        for c in getattr(n, fld, None) or []:
+        cs = getattr(n, fld, None)
+        for c in cs if isinstance(cs, list) else []:
             if isinstance(c, ast.match_case):
                 p = node_rect(lines, c.pattern)[:2]
             else:
@@ -118,7 +122,8 @@ def stmt_table(src: str, tree):
 
     def visit(n, depth):
         for fld in ('body', 'handlers', 'cases', 'orelse', 'finalbody'):
-            for c in getattr(n, fld, None) or []:
+            cs = getattr(n, fld, None)
+            for c in cs if isinstance(cs, list) else []:
                 if not isinstance(c, (ast.stmt, ast.ExceptHandler, ast.match_case)):
                     continue
                 if isinstance(c, ast.match_case):
@@ -175,11 +180,12 @@ class RawRecorder:
                 self.facts[tid] = {'toks': token_table(src), 'stmts': stmt_table(src, t) if t is not None else []}
         return tid, row
 
-    def state(self, root) -> dict:
+    def state(self, root, mode='exec') -> dict:
         src = root.src
         ls, lp = self.tab.node(root.a)
+        tid, row = self.oracle_row(src, mode)
         return {'rootObj': self.root_serial(root), 'rootKind': type(root.a).__name__, 'liveS': ls, 'liveP': lp,
-                'text': self.tab.text(src)}
+                'text': tid, 'srcP': row['P']}
 
     def dump(self) -> dict:
         d = self.tab.dump()
@@ -465,6 +471,43 @@ PROFILES = {
 }
 
 
+def bound(x):
+    return {'k': 'end', 'v': 0} if x == 'end' else {'k': 'int', 'v': int(x)}
+
+
+def unbound(b):
+    return 'end' if b['k'] == 'end' else b['v']
+
+
+def requad(v: View, rng: random.Random, rect):
+    """The same rectangle written the other ways the API allows ('end', negative, beyond the end), or - rarely - an
+    inverted one.  Returns 4 raw coordinates; the spec clips them itself (RawText!Clip)."""
+    ln, col, eln, ecol = rect
+    L = v.lines
+    q = [ln, col, eln, ecol]
+    r = rng.random()
+    if r < 0.08:
+        if rng.random() < 0.5 and eln > 0:
+            return [eln, col, rng.randrange(0, eln), ecol]           # end line before start line
+        if ln == eln and ecol < len(L[ln]):
+            return [ln, rng.randint(ecol + 1, len(L[ln])), eln, ecol]  # end column before start column
+    if ecol == len(L[eln]) and rng.random() < 0.6:
+        q[3] = rng.choice(['end', ecol + rng.randint(1, 9)])
+    elif rng.random() < 0.4 and ecol < len(L[eln]):
+        q[3] = ecol - len(L[eln])
+    if eln == len(L) - 1 and rng.random() < 0.5:
+        q[2] = rng.choice(['end', -1, eln + 3])
+    elif rng.random() < 0.3:
+        q[2] = eln - len(L)
+    if rng.random() < 0.3:
+        q[0] = ln - len(L)
+    if rng.random() < 0.3 and 0 < col < len(L[ln]):
+        q[1] = col - len(L[ln])
+    elif col == len(L[ln]) and rng.random() < 0.5:
+        q[1] = 'end'
+    return q
+
+
 def plan_put_src(v: View, rng: random.Random, profile: str):
     w = PROFILES[profile]
     kinds = list(w)
@@ -515,7 +558,7 @@ def plan_raw_put(v: View, rng: random.Random):
             rect = rect[:2] + v.rect(to)[2:]
     before = [t for t in v.toks if v.tok_rect(t)[2:] <= rect[:2]]
     after = [t for t in v.toks if v.tok_rect(t)[:2] >= rect[2:]]
-    wrapped = bool(before and after and before[-1].string == '(' and after[0].string == ')')
+    wrapped = bool(before and before[-1].string == '(') or bool(after and after[0].string == ')')
     pars_false = wrapped or rng.random() < 0.5
     r = rng.random()
     if r < 0.6:
@@ -550,7 +593,7 @@ def execute(root, plan):
     try:
         c = plan['call']
         if c == 'put_src':
-            ln, col, eln, ecol = plan['rect']
+            ln, col, eln, ecol = plan.get('quad') or plan['rect']
             via = root
             if plan.get('via'):
                 try:
@@ -586,11 +629,11 @@ def make_event(rec: RawRecorder, plan, pre_src, mode, post, exc):
           'msg': '' if exc is None else ascii(str(exc))[1:-1][:80], 'post': post}
     if c in ('put_src', 'raw_put', 'put_none'):
         new = splice(pre_src, plan['rect'], plan['repl'])
-        ev['rect'] = list(plan['rect'])
+        ev['quad'] = [bound(x) for x in (plan.get('quad') or plan['rect'])]
         ev['repl'] = rec.text(plan['repl'])
     else:
         new = pre_src  # reparse(): the requested splice is the identity
-        ev['rect'] = [0, 0, 0, 0]
+        ev['quad'] = [bound(0)] * 4
         ev['repl'] = rec.text('')
     tid, row = rec.oracle_row(new, mode)
     ev['otext'] = tid
@@ -606,8 +649,7 @@ def run_history(rec: RawRecorder, tid: int, seed: int, src: str, nsteps: int, pr
     of drawing new ones."""
     rng = random.Random(seed)
     root = FST(src, mode)
-    init = rec.state(root)
-    rec.oracle_row(src, mode)  # facts of the initial text
+    init = rec.state(root, mode)
     trace = {'id': tid, 'seed': seed, 'mode': mode, 'init': init, 'steps': []}
     script = []
     dirty = False  # True after put_none: source and tree deliberately out of step until reparse()
@@ -645,12 +687,14 @@ def run_history(rec: RawRecorder, tid: int, seed: int, src: str, nsteps: int, pr
                                 'path': [[f, -1 if i is None else i] for f, i in _path_of(v.tree, n)]}
                 if plan and plan['call'] == 'put_src' and rng.random() < 0.3 and v.exprs:
                     # put_src may be called on any node of the tree: `self` must not matter
-                    n = rng.choice(v.exprs)
+                    n = rng.choice(v.exprs + v.stmts)
                     plan['via'] = [[f, -1 if i is None else i] for f, i in _path_of(v.tree, n)]
+                if plan and plan['call'] in ('put_src', 'put_none') and profile != 'clean' and rng.random() < 0.15:
+                    plan['quad'] = requad(v, rng, plan['rect'])
             if plan is None:
                 continue
         exc = execute(root, plan)
-        post = rec.state(root)
+        post = rec.state(root, mode)
         ev = make_event(rec, plan, pre_src, mode, post, exc)
         trace['steps'].append(ev)
         script.append({'plan': plan, 'pre_src': pre_src, 'post_src': root.src,
@@ -666,3 +710,59 @@ def run_history(rec: RawRecorder, tid: int, seed: int, src: str, nsteps: int, pr
             break
     trace['script'] = script
     return trace
+
+
+# ----------------------------------------------------------------------------------------------------------------------
+# other root kinds
+
+MODE_SOURCES = {
+    'eval': ['a + b * c', 'f(x, y=1, *z)', '[i for i in j if k]', '(a,\n b,\n c)', 'lambda x: (x, 1)', 'a if b else c',
+             '{k: v, **d}', 'x[1:2, ::3]', 'not a and (b or c)', '(yield)', 'a.b.c(d)[e]', '"s" "t"', '-x ** 2',
+             '[\n    1,  # one\n    2,\n]', 'a < b <= c', '(x := 5)'],
+    'single': ['x = 1', 'if a: b', 'x = 1; y = 2', 'for i in j: pass', 'del a, b', 'import m', 'f(x)', 'a: int = 1',
+               'while a: b', 'with a as b: c', 'x += 1', 'assert a, b', 'class C: pass', 'def f(): return 1'],
+}
+
+
+# ----------------------------------------------------------------------------------------------------------------------
+# direction G: one row of the TLC-generated flat-Python table
+
+def _s(lines):
+    return '\n'.join(''.join(chr(c) for c in ln) for ln in lines)
+
+
+def run_table_row(rec: RawRecorder, tid: int, row):
+    """row = [text, rect, repl, valid, new, names] as computed by RawGen.tla.  Executes put_src on pfst, records the
+    event for RawTrace, and cross-checks the spec's flat-Python oracle against CPython (third result: a mismatch
+    description or None)."""
+    text, rect, repl, valid, new, names = row
+    src, rp, exp_new = _s(text), _s(repl), _s(new)
+    mism = None
+    h_new = splice(src, rect, rp)
+    t = try_parse(exp_new, 'exec')
+    if h_new != exp_new:
+        mism = ('splice', src, rect, rp, exp_new, h_new)
+    elif (t is not None) != bool(valid):
+        mism = ('valid', exp_new, valid)
+    elif t is not None:
+        got = []
+        ok = True
+        for st in t.body:
+            if not (isinstance(st, ast.Expr) and isinstance(st.value, ast.Name) and set(st.value.id) == {'a'}
+                    and st.lineno == st.end_lineno):
+                ok = False
+                break
+            got.append([st.lineno - 1, st.col_offset, st.end_col_offset])
+        if not ok or got != [list(n) for n in names]:
+            mism = ('tree', exp_new, names, got)
+    root = FST(src, 'exec')
+    init = rec.state(root, 'exec')
+    plan = {'call': 'put_src', 'rect': list(rect), 'repl': rp, 'gen': 'table'}
+    exc = execute(root, plan)
+    post = rec.state(root, 'exec')
+    ev = make_event(rec, plan, src, 'exec', post, exc)
+    tr = {'id': tid, 'seed': 0, 'mode': 'exec', 'init': init, 'steps': [ev]}
+    sc = {'driver': 'table', 'src': src, 'mode': 'exec', 'seed': 0, 'profile': 'table',
+          'script': [{'plan': plan, 'pre_src': src, 'post_src': root.src,
+                      'exc': None if exc is None else f'{type(exc).__name__}: {exc}'}]}
+    return tr, sc, mism
